@@ -145,3 +145,61 @@ void h_count(void) {
     if (g_mt_lock_calls == 0) CANARY("count: level NONE"); else CANARY("count: traced");
     if (r != 0) CANARY("count: non-zero");
 }
+
+/* ---- set-up / tear-down ---- */
+void h_init(void) {
+    struct alloc_tracer *tracer;
+    struct aws_allocator *traced = nondet_ptr();
+    enum aws_mem_trace_level level;
+    size_t fps = nondet_size_t();
+    MT_START();
+    s_alloc_tracer_init(tracer, traced, level, fps);
+    if (level == AWS_MEMTRACE_NONE) CANARY("init: level NONE");
+    if (level == AWS_MEMTRACE_BYTES) CANARY("init: level BYTES");
+    if (level == AWS_MEMTRACE_STACKS && g_mt_bt_avail) CANARY("init: level STACKS");
+    if (level == AWS_MEMTRACE_STACKS && !g_mt_bt_avail) CANARY("init: level STACKS without backtrace support");
+    if (fps > 128) CANARY("init: depth clamped");
+    if (fps == 0) CANARY("init: default depth");
+}
+
+void h_destroy(void) {
+    struct aws_allocator *allocator;
+    MT_START();
+    struct aws_allocator *r = aws_mem_tracer_destroy(allocator);
+    if (g_mt_lock_calls == 0) CANARY("destroy: level NONE"); else CANARY("destroy: traced");
+}
+
+/* aws_mem_tracer_new: the real aws_mem_acquire_many (source/allocator.c, linked in; its two va_arg loops run `count` == 2
+ * times: complete unwinding) carves tracer and allocator out of one block of the bookkeeping allocator;
+ * s_alloc_tracer_init and aws_mem_acquire are replaced by their contracts. */
+void h_new(void) {
+    struct aws_allocator *inner = nondet_ptr();
+    enum aws_mem_trace_level level = (enum aws_mem_trace_level)(nondet_u8() % 3);
+    size_t fps = nondet_size_t();
+    MT_START();
+    struct aws_allocator *ta = aws_mem_tracer_new(inner, nondet_ptr(), level, fps);
+    __CPROVER_assert(ta != NULL && __CPROVER_rw_ok(ta, sizeof(*ta)), "new: a usable allocator object");
+    __CPROVER_assert(ta->mem_acquire == s_trace_mem_acquire && ta->mem_release == s_trace_mem_release &&
+                     ta->mem_realloc == s_trace_mem_realloc && ta->mem_calloc == s_trace_mem_calloc,
+                     "new: vtable is the tracing one");
+    struct alloc_tracer *tr = ta->impl;
+    __CPROVER_assert(tr != NULL && __CPROVER_rw_ok(tr, sizeof(*tr)), "new: impl is a tracer object");
+    __CPROVER_assert(__CPROVER_POINTER_OFFSET(tr) == 0, "new: tracer is the start of the block (destroy releases it)");
+    __CPROVER_assert(__CPROVER_same_object(tr, ta) &&
+                     __CPROVER_POINTER_OFFSET(ta) >= sizeof(struct alloc_tracer), "new: allocator object lies behind the tracer");
+    __CPROVER_assert(tr->traced_allocator == inner, "new: wraps the given allocator");
+    __CPROVER_assert(tr->level == ((level == AWS_MEMTRACE_STACKS && !g_mt_bt_avail) ? AWS_MEMTRACE_BYTES : level),
+                     "new: level as requested (STACKS clamped without backtrace)");
+    if (tr->level != AWS_MEMTRACE_NONE) {
+        __CPROVER_assert(MT_ALLOCATED(tr) == 0 && g_mt_sum == 0 && g_mt_count == 0 && !g_mt_present,
+                         "new: nothing outstanding, table empty");
+        __CPROVER_assert(g_mt_allocs == &tr->allocs && g_mt_mutex == &tr->mutex, "new: tables registered");
+        CANARY("new: traced");
+    } else {
+        CANARY("new: level NONE");
+    }
+    if (tr->level == AWS_MEMTRACE_STACKS) {
+        __CPROVER_assert(tr->frames_per_stack >= 1 && tr->frames_per_stack <= 128 && g_mt_stacks == &tr->stacks, "new: depth 1..128");
+        CANARY("new: level STACKS");
+    }
+}
